@@ -697,10 +697,6 @@ class C19(Prop):
         and not C19.dotdot_case(case)
         and all(t is not None and (t[3] != "text()" or (t[0] in ("=", "==") and t[1] != t[2] and t[1].lower() == t[2].lower()))
                 for t in C19.unresolved_text(obs)) and bool(C19.unresolved_text(obs)),
-        # item access on a list-rooted tree cannot resolve a text() condition at all
-        "text-list-root": lambda case, obs, failure: case["stream"] == "findall" and failure.startswith("UNRESOLVED")
-        and isinstance(case["input"]["tree"], list) and not C19.dotdot_case(case)
-        and all(t is not None for t in C19.unresolved_text(obs)) and bool(C19.unresolved_text(obs)),
         # the '<>' spelling of "not equal" is accepted by findall but not by item access
         "text-ltgt": lambda case, obs, failure: case["stream"] == "findall" and failure.startswith("UNRESOLVED")
         and not C19.dotdot_case(case)
